@@ -23,9 +23,8 @@ CFG = {
         "no conjunction trick). Trusted: Coq kernel + vm_compute; the hand model C08_Model.v (+ BitSet.v set_i32/unset_i32/band/bor/"
         "brev/bequal); math/bits.TrailingZeros64 / Len64 / OnesCount64 modelled as ctz / N.log2 / popcount on the binary "
         "representation (c08_pick_find, popcount_filter relate them to the member list); Go slice indexing panics exactly when the "
-        "index is outside [0, len); integer conversions T(i)+add wrap modulo 2^bits. Primitive 63-bit integers (Uint63) are used "
-        "ONLY to spell 64-bit literals in the generated case files (C08_Lit.v: w2/zp/zn); no theorem depends on them (every "
-        "Print Assumptions is closed). Not claimed: a Bit1024 whose slice does not have 16 words (NewBit1024 always makes 16); "
+        "index is outside [0, len); integer conversions T(i)+add wrap modulo 2^bits. 64-bit literals in the generated case files are spelled with the "
+        "byte constructors of Coq.Init.Byte (C08_Lit.v: wb/zp/zn, axiom-free; number notations cost ~1 ms per 64-bit numeral). Not claimed: a Bit1024 whose slice does not have 16 words (NewBit1024 always makes 16); "
         "concurrent mutation of one bitmap (the package has no synchronisation and the property does not speak of it)."
     ),
     "rule": (
@@ -37,7 +36,7 @@ CFG = {
     "trusted": [
         "hook bitmap1024.VerifSetSparseMagic (zz_verif.go, build tag verif) forwards to internal.SetSparseMagic",
         "math/bits (TrailingZeros64, Len64, OnesCount64) and Go slice bounds checks behave as documented",
-        "Uint63 primitive integers of the Coq kernel, used only for literals in generated case files (C08_Lit.v)",
+        "C08_Lit.v wb/zp/zn: little-endian byte spelling of 64-bit literals in generated case files (plain Gallina, no axioms)",
     ],
     "assumptions": [
         "a Bit1024 value has exactly 16 words (NewBit1024); words are uint64",
@@ -45,5 +44,5 @@ CFG = {
         "sparseMagic is only changed through SetSparseMagic (an int32); the theorems hold for every value of it",
     ],
     "lint": [],
-    "chunk": 600,
+    "chunk": 1100,
 }
